@@ -72,6 +72,22 @@ def classify_known(prop, viol_payload):
     return None
 
 
+def recheck_sample(task, agg, frac=0.02, cap=60):
+    ids = sorted(int(k) for k in agg.run_digests if k != "None")
+    if not ids:
+        return 0
+    n = max(3, min(cap, int(len(ids) * frac)))
+    step = max(1, len(ids) // n)
+    sample = ids[::step][:n]
+    for i in sample:
+        r = task(i)
+        if str(r.get("digest", "")) != agg.run_digests[str(i)]:
+            print(f"HARNESS-ERROR nondeterminism: run {i} gave digest {r.get('digest')} in the parent but "
+                  f"{agg.run_digests[str(i)]} in the pool", file=sys.stderr)
+            return -1
+    return len(sample)
+
+
 def handle_violation_w(prop, seed, r, args):
     from .wrun import execute, minimise
 
@@ -111,6 +127,15 @@ def do_replay(prop, path, quiet=False):
     with open(path) as f:
         payload = json.load(f)
     eng = payload.get("engine", "W")
+    if eng == "S":
+        # statistical batch finding: the replay is the batch itself (seed, tier, run count)
+        os.environ["VERIF_SEED"] = str(payload["seed"])
+
+        class A:
+            runs, wall, workers, digests, quiet = payload["runs"], None, None, None, True
+
+        rc = run_w(prop, payload.get("tier", "quick"), payload["seed"], A)
+        return rc
     if eng == "W":
         from .wrun import execute
 
@@ -137,6 +162,7 @@ def do_replay(prop, path, quiet=False):
 
 def run_w(prop, tier, seed, args):
     mode = get_mode(prop)
+    mode.tier = tier
     budget = tier_budget(prop, tier)
     n_runs = args.runs or budget["runs"]
     wall = args.wall or budget["wall"]
@@ -188,14 +214,34 @@ def run_w(prop, tier, seed, args):
               f"(from {payload['original_event_count']})")
         print(f"  detail: {payload['detail']}")
         rc = 1
+    if rc == 0 and hasattr(mode, "batch_check"):
+        bad = mode.batch_check(agg, seed)
+        if bad is not None:
+            cell, rep, hist = bad
+            payload = {"property": prop, "engine": "S", "seed": seed, "run_index": -1, "invariant": "counter_distribution_ne_markov_chain",
+                       "detail": f"cell {cell}: {rep}", "cell": cell, "histogram": hist, "runs": consumed, "tier": tier,
+                       "tree_hash": boot.TREE_HASH}
+            path = write_replay(prop, seed, "dist", payload)
+            print(f"VIOLATION property={prop} replay={path}")
+            print(f"  invariant=counter_distribution_ne_markov_chain {cell}: {rep}")
+            agg.violations.append({"i": -1})
+            rc = 1
     agg.dump_digests(args.digests)
+    # determinism self-check: a sample of this batch's runs is re-executed in the parent
+    # process (no pool) and must reproduce the pooled digests bit for bit
+    if rc == 0 and not agg.violations:
+        nre = recheck_sample(task, agg)
+        if nre < 0:
+            return 2
+    else:
+        nre = 0
     wall_s = time.time() - t0
     rule = mode.rule if hasattr(mode, "rule") else (
         "one case = one seeded simulated run (configuration drawn per run, then a PRNG-chosen event sequence over "
         "replicas/network/disk/views); distinct = distinct sha1 of (config, event log); non-trivial = the run "
         "contained at least one fault/merge/restart event or hit the property's collision/ceiling/cache probe")
     extra = {"stop_reason": reason or "completed", "runs_requested": n_runs, "workers": workers,
-             "tree_hash": boot.TREE_HASH}
+             "tree_hash": boot.TREE_HASH, "runs_reexecuted_for_determinism": nre}
     if hasattr(mode, "extra_evidence"):
         extra.update(mode.extra_evidence())
     write_evidence(prop, tier, seed, "exploration", agg, wall_s, rule, REAL_W, STUB_W, ASSUME_W, extra=extra)
